@@ -40,12 +40,30 @@ def tupleLe? : List KeyAtom → List KeyAtom → Option Bool
       | some r => some r
       | none => none
 
-/-- total version used once all keys have one shape (errors are decided beforehand) -/
-def tupleLe (a b : List KeyAtom) : Bool := (tupleLe? a b).getD true
+/-- a total extension of `atomLe?` (ints before strings where Python raises) -/
+def atomLeT : KeyAtom → KeyAtom → Bool
+  | .int a, .int b => decide (a ≤ b)
+  | .str a, .str b => strLe a b
+  | .int _, .str _ => true
+  | .str _, .int _ => false
+
+/-- total tuple order; equals Python's wherever Python defines the comparison -/
+def tupleLeT : List KeyAtom → List KeyAtom → Bool
+  | [], _ => true
+  | _ :: _, [] => false
+  | a :: as, b :: bs => if a = b then tupleLeT as bs else atomLeT a b
+
+/-- the comparator `sorted` effectively uses: ascending, or descending with `reverse=True` -/
+def sortLe {α : Type} (key : α → List KeyAtom) (inv : Bool) (a b : α) : Bool :=
+  if inv then tupleLeT (key b) (key a) else tupleLeT (key a) (key b)
 
 /-- `sorted(items, key=key, reverse=inv)`: stable; `reverse=True` keeps the original order of ties -/
 def pySorted {α : Type} (key : α → List KeyAtom) (inv : Bool) (l : List α) : List α :=
-  l.mergeSort (fun a b => if inv then tupleLe (key b) (key a) else tupleLe (key a) (key b))
+  l.mergeSort (sortLe key inv)
+
+/-- `PathDepthSorter`: `sorted(files, key=lambda f: (len(parts),), reverse=True)` -/
+def depthSorted {α : Type} (depth : α → Nat) (l : List α) : List α :=
+  pySorted (fun a => [KeyAtom.int (depth a)]) true l
 
 /-- the shape of a key: which positions hold ints -/
 def keyShape (k : List KeyAtom) : List Bool := k.map (fun a => match a with | .int _ => true | .str _ => false)
